@@ -488,6 +488,10 @@ class Check:
             known_findings_seen=[f["id"] for _, (f, _) in sorted(self.known_seen.items())],
             proof_broken=proof_broken,
         )
+        if proof_broken:
+            # a broken proof discharges nothing: drop the proof-level keys so the generic counts apply
+            cov["obligations_attempted"] = cov.pop("obligations")
+            cov.pop("discharged")
         ev = dict(property_id=self.prop, tier=self.tier, seed=self.seed, level="proof", coverage=cov,
                   assumptions=list(getattr(mod, "ASSUMPTIONS", [])), wall_s=round(time.time() - self.t0, 2), violations=nviol)
         os.makedirs(os.path.join(VERIF, "evidence"), exist_ok=True)
